@@ -136,7 +136,10 @@ fn run_line(group: &workload::Group, plan: &Plan, is_ref: bool, rec: &ExecRecord
         "ref": is_ref,
         "source": plan.source,
         "options": plan.options.label(),
-        "strategy": plan.strategy.name,
+        "strategy": match plan.strategy.also.first() {
+            Some((also, _)) => format!("{}+{}", plan.strategy.name, also.split(':').next().unwrap_or(also)),
+            None => plan.strategy.name.clone(),
+        },
         "victim": plan.strategy.victim,
         "workers": plan.workers,
         "mask_bits": plan.yield_mask.count_ones(),
